@@ -361,7 +361,7 @@ def linearise(tr):
                 s = part.strip()
                 if not s:
                     continue
-                m = re.match(r'^([A-Za-z0-9_.$]+|\{[^}]*\}):\s*(.*)$', s)
+                m = re.match(r'^((?:[A-Za-z0-9_.$]|\{[^}]*\})+):\s*(.*)$', s)
                 if m and not s.startswith('%'):
                     out.append(('label', m.group(1)))
                     s = m.group(2).strip()
